@@ -247,6 +247,9 @@ func runC13(p *eng.Prog, r *eng.Report, tier string) {
 	r.Note("C13.9: %d start-element edges in token loops examined", nl)
 	c13StreamErrorArms(c, "C13.21")
 	xmlLangTagsNamespaced(c, "C13.27")
+	noLossyInDecoders(c, "C13.28", func(f *eng.Fn) bool {
+		return strings.HasPrefix(f.Short, "stanza.") || strings.HasPrefix(f.Short, "stream.") || strings.HasPrefix(f.Short, "internal/saslerr.")
+	}, 5)
 	jidCore(c, "C13.26")
 	decodedStanzaNotRewritten(c, "C13.25", []string{"stanza.UnmarshalIQError"}, 1)
 	c13EveryTextWritten(c, "C13.24")
@@ -619,4 +622,40 @@ func c13EveryTextWritten(c *cx, id string) {
 		return true
 	})
 	c.r.Floor(id, "loops over Error.Text in the encoder", n, 1)
+}
+
+// noLossyInDecoders (C13.28 / C20.15): what a decoder stores is what the
+// element said. No UnmarshalXML / UnmarshalXMLAttr / UnmarshalText method in
+// scope - and no accessor listed by the caller - calls a string-rewriting
+// function (trim, case folding, replace): "servers pretty-print" is not a
+// reason to drop the white space an error text or a form value was sent with;
+// the encoders write the text as it is, so the decoded value would differ
+// from the encoded one.
+func noLossyInDecoders(c *cx, id string, in func(f *eng.Fn) bool, floor int) {
+	n := 0
+	for _, f := range c.allFns() {
+		if f.Body == nil || !in(f) {
+			continue
+		}
+		isDec := false
+		for x := f; x != nil; x = x.Parent {
+			if x.Obj != nil {
+				switch x.Obj.Name() {
+				case "UnmarshalXML", "UnmarshalXMLAttr", "UnmarshalText", "GetString", "GetStrings", "Get", "Raw", "ForFields":
+					isDec = true
+				}
+				break
+			}
+		}
+		if !isDec {
+			continue
+		}
+		n++
+		for _, cl := range f.AllCalls() {
+			if cid := f.CalleeID(cl); lossyFuncs[cid] {
+				c.r.Check(id, f, "call of "+cid, "E-taint: decoders and accessors hand on the text as it was sent", cl.Pos(), false, "the decoded value differs from what was encoded (white space, case)")
+			}
+		}
+	}
+	c.r.Floor(id, "decoders and accessors scanned", n, floor)
 }
